@@ -83,6 +83,16 @@ pub fn pick_scalar<R: Rng>(rng: &mut R, pool: &Pool) -> Fr {
     }
 }
 
+/// field elements whose MONTGOMERY representation is the integer m (m = 1: the element 2^-256 mod q)
+pub fn mont_small(m: u8) -> Fq {
+    let mut v = [0u8; 33];
+    v[0] = 1; // 2^256
+    let r = Fq::from_slice(&v).unwrap();
+    let mut w = [0u8; 32];
+    w[31] = m;
+    Fq::from_slice(&w).unwrap() * r.inverse().unwrap()
+}
+
 pub const TAGS: [&str; 5] = ["A", "J", "S", "Z0", "ZN"];
 
 pub fn g1_rep<R: Rng>(rng: &mut R, p: G1, tag: &str) -> G1 {
@@ -103,9 +113,10 @@ pub fn g1_rep<R: Rng>(rng: &mut R, p: G1, tag: &str) -> G1 {
             q
         }
         "S" => {
-            let l = match rng.gen_range(0..4) {
+            let l = match rng.gen_range(0..6) {
                 0 => Fq::one() + Fq::one(),
                 1 => -Fq::one(),
+                2 => mont_small(rng.gen_range(1..4)),       // z whose Montgomery limbs are a tiny integer
                 _ => rand_fq_nonzero(rng),
             };
             // half of the time the rescaling starts from the normalised point, so that z is exactly lambda
@@ -146,7 +157,9 @@ pub fn g2_rep<R: Rng>(rng: &mut R, p: G2, tag: &str) -> G2 {
         "S" => {
             // lambda: 2, -1, i, a purely imaginary element, a real element, a general element
             // (z shares a component with a special constant without being it: real part 1, imaginary part 1, real part 0 ...)
-            let l = match rng.gen_range(0..11) {
+            let l = match rng.gen_range(0..13) {
+                11 => Fq2::new(mont_small(rng.gen_range(1..4)), Fq::zero()),
+                12 => Fq2::new(Fq::zero(), mont_small(1)),
                 0 => Fq2::one() + Fq2::one(),
                 1 => -Fq2::one(),
                 2 => Fq2::new(Fq::zero(), Fq::one()),
@@ -156,6 +169,7 @@ pub fn g2_rep<R: Rng>(rng: &mut R, p: G2, tag: &str) -> G2 {
                 6 => Fq2::new(Fq::one(), Fq::one()),
                 7 => Fq2::new(rand_fq_nonzero(rng), Fq::one()),
                 8 => Fq2::new(-Fq::one(), rand_fq_nonzero(rng)),
+                9 | 10 => rand_fq2_nonzero(rng),
                 _ => rand_fq2_nonzero(rng),
             };
             // half of the time the rescaling starts from the normalised point, so that z is exactly lambda
